@@ -24,3 +24,4 @@ open Gossamer.C34
 #print axioms Gossamer.Monitor.modeIn_lock
 #print axioms C34_conservation
 #print axioms C34_nil_takes_nothing
+#print axioms C34_state_remove_both
